@@ -491,3 +491,12 @@ def pre_checks(ctx):
         if not ok:
             bad.append(("table:int-max-str-digits", "int()/str() do not honour sys.get_int_max_str_digits() as modelled"))
     return bad
+
+
+# functions of /repo whose executed-line coverage by this run is reported in the evidence
+ANCHORS = [('swh/model/swhids.py', '_BaseSWHID.*'),
+           ('swh/model/swhids.py', 'QualifiedSWHID.*'),
+           ('swh/model/swhids.py', '_parse_swhid'),
+           ('swh/model/swhids.py', '_parse_core_swhid'),
+           ('swh/model/swhids.py', '_parse_lines_qualifier'),
+           ('swh/model/swhids.py', '_parse_path_qualifier')]
